@@ -1088,11 +1088,15 @@ lyd_insert_sibling(struct lyd_node *sibling, struct lyd_node *node, struct lyd_n
 
     first_sibling = lyd_first_sibling(sibling);
     if (node->parent || node->prev->next || !node->next) {
+        if (first_sibling == node) {
+            /* node is the first of the siblings it is inserted into and is going to be unlinked */
+            first_sibling = node->next;
+        }
         LY_CHECK_RET(lyd_unlink_tree(node));
         lyd_insert_node(NULL, &first_sibling, node, LYD_INSERT_NODE_DEFAULT);
-    } else {
+    } else if (first_sibling != node) {
         LY_CHECK_RET(lyd_move_nodes(NULL, &first_sibling, node));
-    }
+    } /* else all the nodes are siblings already */
 
     if (first) {
         *first = first_sibling;
